@@ -10,6 +10,12 @@ def repo_fix_and_hook_commits():
     return hooks
 
 CHECKS = {
+ 'C06': dict(level='fault_enumeration', design='6 C06', technique='deterministic simulation with fault injection over the real SqliteStorage: every storage call of an action interrupted in-process (error / dropped caller), plus victim processes really SIGKILLed at storage-call and write-syscall indices; fresh-handle reopen compared with the recorded transaction-boundary states',
+   text='For each sampled action (commit, undo, rebuild, sync, expire) on a SQLite replica the state after each of its transaction commits is recorded through fresh handles; the action is then re-executed from a copy of the directory with an interruption at every storage call (error returned; caller dropped) and, in victim processes, killed by SIGKILL at storage-call indices, right after returning, and at write-class system-call indices inside SQLite\'s commit. A freshly opened store must show exactly the state after the commits that had returned (for write-syscall kills: that or the next boundary), never a partial state, and must open at all.',
+   note='Crash model: process stop with completed system calls surviving (what the property states); power loss / lost un-fsynced writes not modelled. Write-class syscalls are intercepted by symbol interposition in the harness binary.'),
+ 'C16': dict(level='exploration', design='6 C16', technique='deterministic differential simulation: one seeded StorageTxn call sequence applied to InMemoryStorage and SqliteStorage with commit/abandon, close/reopen, historical-schema databases and read-only reopen; every return value and the visible state compared',
+   text='Differential execution of contract-respecting call sequences with arbitrary string contents against both storages; SQLite side closed and reopened at seeded points; databases written by the harness with the 0.8/0.9/(0,1)/(0,2) DDL must read back identically after upgrade-on-open; read-only reopen must refuse every mutator and commit while reading the same data.',
+   note='Historical DDL reconstructed from schema.rs comments and the 0.8.0 fixture in the unit tests; trailing empty working-set slots are treated as unobservable.'),
  'C15': dict(level='exploration', design='6 C15', technique='deterministic simulation: seeded scripts of status changes, deletions, syncs, undo and rebuilds in both modes; working-set oracle after every rebuild (explicit or implied) and every commit',
    text='Working-set oracle evaluated after every rebuild (explicit, or the one sync and undo perform) and every commit, in all family-A runs and in dedicated scripts that mix both rebuild modes so that prior working sets contain gaps and entries whose task was completed, deleted outright or removed by a sync.',
    note='In-memory storage here; SQLite working-set calls are compared with it in C16. No order is required among simultaneous newcomers.'),
